@@ -84,7 +84,7 @@ func digest(b []byte) string {
 
 type imgSpec struct {
 	W, H  int
-	Style int // 0 smooth+noise, 1 textured blocks with repeats, 2 flat regions + edges
+	Style int // 0 smooth+noise, 1 textured blocks with repeats, 2 flat regions + edges, 3 exact-tie picture (flat left half, vertically constant random columns on the right)
 	Alpha bool
 	Seed  uint64
 }
@@ -123,6 +123,17 @@ func genImage(s imgSpec) *image.NRGBA {
 				} else {
 					v := r.Intn(256)
 					R, G, B = v, (v+x)&255, (v+y)&255
+				}
+			case 3:
+				// every per-tile / per-block cost comparison ties exactly on the flat half and has one
+				// strictly best candidate on the other half: any tie-breaking that looks at what the
+				// same worker did before (state carried across the iterations of one range) shows up
+				// as a dependence on where the ranges start
+				if x < s.W/2 {
+					R, G, B = 40, 90, 200
+				} else {
+					t := (x % (tw * tw)) * 3
+					R, G, B = int(tile[t]), int(tile[t+1]), int(tile[t+2])
 				}
 			default:
 				bx, by := x/32, y/24
@@ -413,6 +424,7 @@ func buildWorkloads(seed int64, tier string) []*workload {
 	// lossless: >= 316x316 (minPixelsForParallel = 100000, hash chain > 50000)
 	lossless(352, 330, 1, false, 75, 4)
 	lossless(410, 317, 0, true, 95, 3)
+	lossless(640, 256, 3, false, 75, 4) // exact cost ties (flat half) next to a strictly best mode: loop-carried tie-breaking state
 	if thorough {
 		lossless(1024, 701, 1, false, 90, 5)
 		lossless(2000, 64, 2, false, 75, 4) // wide and low: argbToNRGBA with n > height
